@@ -138,6 +138,17 @@ def check_roundtrip(spec, ctx):
             CLS[kind].from_dict(d0, parent_of(spec))
         except Exception:
             pass
+    if kind == "cds":
+        # the same CDS annotated with GFF3 phases instead of frames is the same content: same identifier, and it round-trips alike
+        from inscripta.biocantor.gene.cds_frame import CDSPhase as _Ph
+        from harness.build import STRAND as _ST
+        xp = CDSInterval([b[0] for b in o["blocks"]], [b[1] for b in o["blocks"]], _ST[o["strand"]], [_Ph({0: 0, 1: 2, 2: 1}[f]) for f in o["frames"]],
+                         parent_or_seq_chunk_parent=parent_of(spec))
+        ctx.eq("cds_built_from_phases:same_guid", str(xp.guid), str(x.guid))
+        ctx.true("cds_built_from_phases:equal", xp == x, repr(xp)[:80])
+        yp = CDSInterval.from_dict(copy.deepcopy(xp.to_dict()), parent_of(spec))
+        same_object(ctx, "dict_roundtrip_of_phase_built_cds", xp, yp, with_seq)
+        ctx.label("cds_built_from_phases")
     # dictionary export/import
     y = CLS[kind].from_dict(copy.deepcopy(x.to_dict()), parent_of(spec))
     same_object(ctx, "dict_roundtrip", x, y, with_seq)
